@@ -106,14 +106,24 @@ def case_recipe(G, espec, rng, nmods, annotate=False, refs=False, rotate=True, s
             # fragment boundaries in the rotated coordinates, to place features on them
             spec["feats"] = rnd_features(s2, rng, cites=len(spec.get("refs", [])) if refs else 0,
                                          marks=[(i + k) % len(s) for i in (0, len(s) // 2, len(G.site) + G.off)])
+            # where the retained fragment lies in the rotated record
+            idx = len(specs)
+            if idx == 0:
+                fs, fl = (2 * G.ovh + 2 * G.off + 2 * len(G.site) + len(c["placeholder"]) - G.ovh) , G.ovh + len(c["backbone"])
+            else:
+                fs, fl = len(G.site) + G.off, G.ovh + len(c["targets"][idx - 1])
             if refs and spec.get("refs"):
                 # at least one cited feature inside the retained fragment of every input that has references
-                idx = len(specs)
-                if idx == 0:
-                    fs, fl = (2 * G.ovh + 2 * G.off + 2 * len(G.site) + len(c["placeholder"]) - G.ovh) , G.ovh + len(c["backbone"])
-                else:
-                    fs, fl = len(G.site) + G.off, G.ovh + len(c["targets"][idx - 1])
                 spec["feats"].append(cited_inside(spec, (fs + k) % len(s), fl, rng, len(spec["refs"])))
+            if fl >= 2 and rng.random() < 0.3:
+                # a site between two bases ("34^35", e.g. a cleavage site): strictly inside the retained fragment
+                a = (fs + k + rng.randint(1, fl - 1)) % len(s)
+                spec["feats"].append({"type": "misc_feature", "strand": rng.choice([1, -1]), "parts": [[a, a]],
+                                      "quals": {"label": ["site%d" % rng.randrange(1000)]}})
+            if len(s) - fl >= 3 and rng.random() < 0.15:
+                # ... and one strictly inside the discarded part
+                a = (fs + k + fl + rng.randint(1, len(s) - fl - 1)) % len(s)
+                spec["feats"].append({"type": "misc_feature", "strand": 1, "parts": [[a, a]], "quals": {"label": ["gone%d" % rng.randrange(1000)]}})
         specs.append(spec)
     mods = specs[1:]
     for j in range(extra_unused):
